@@ -56,17 +56,31 @@ theorem global_fuel {cs : List Container} (depth : Parent → Nat)
           exact hn (.pkg hf h)
 
 /-- `is_global` decides exactly "no C_C row on the containment chain"; the fuel is never exhausted -/
-theorem global_iff {cs : List Container} (tree : TreeOk cs) (p : Parent) :
+theorem global_iff {cs : List Container} {rf : List PkgRef} (tree : TreeOk cs rf) (p : Parent) :
     isGlobal cs p = true ↔ ¬ InComp cs p := by
-  obtain ⟨depth, hdec, hb⟩ := tree.ex
+  obtain ⟨depth, hdec, _, hb⟩ := tree.ex
   exact global_fuel depth hdec _ p (by have := hb p; omega)
 
-/-- an element inside a component is not global -/
-theorem reaches_inComp {cs : List Container} {root : Nat} {p : Parent} (h : Reaches cs root p) : InComp cs p := by
+/-- an element whose OWN containment chain (no package reference used) reaches a component is not global -/
+theorem reaches_inComp {cs : List Container} {root : Nat} {p : Parent} (h : Reaches cs [] root p) : InComp cs p := by
   induction h with
   | here hk => exact .comp hk
   | pkg hk _ ih => exact .pkg hk ih
   | comp hk _ _ => exact .comp hk
+  | ref _ hr _ _ _ _ => cases hr
+
+/-- with package references: an element inside a component either has a component on its own containment chain, or its
+    chain leaves through a package reference — from a package that is itself NOT inside any component (`viaRef`) -/
+theorem reaches_inComp_or_ref {cs : List Container} {rf : List PkgRef} {root : Nat} {p : Parent} (h : Reaches cs rf root p) :
+    InComp cs p ∨ ∃ r ∈ rf, (findContainer cs false r.referring).isSome ∧ (findContainer cs false r.referred).isSome := by
+  induction h with
+  | here hk => exact Or.inl (.comp hk)
+  | pkg hk _ ih =>
+    rcases ih with ih | ih
+    · exact Or.inl (.pkg hk ih)
+    · exact Or.inr ih
+  | comp hk _ _ => exact Or.inl (.comp hk)
+  | @ref q k r kq hk hr hrp hq _ _ => exact Or.inr ⟨r, hr, by simp [hq], by simp [hrp, hk]⟩
 
 /-! ### user-type chains -/
 
